@@ -639,8 +639,13 @@ func (x *Exec) builtin(st *State, in ssa.Instruction, c *ssa.CallCommon, name st
 			if isAbstractBytes(a.T) {
 				k(st, []*Value{leaf(rt, fmt.Sprintf("(blen %s)", a.Term))})
 			} else if _, ok := a.T.Underlying().(*types.Map); ok {
-				t := fmt.Sprintf("(maplen %s %s)", x.mapDomTerm(st, a), a.Term)
+				dom := x.mapDomTerm(st, a)
+				t := fmt.Sprintf("(maplen %s %s)", dom, a.Term)
 				st.assume(fmt.Sprintf("(>= %s 0)", t))
+				// len(m) == 0 exactly when m has no key
+				wit := x.fresh(st, "mapwit", "Int")
+				st.assume(fmt.Sprintf("(=> (> %s 0) (select %s %s))", t, dom, wit))
+				st.assume(fmt.Sprintf("(=> (= %s 0) (forall ((qk Int)) (! (not (select %s qk)) :pattern ((select %s qk)))))", t, dom, dom))
 				k(st, []*Value{leaf(rt, t)})
 			} else {
 				v := x.fresh(st, "len", "Int")
